@@ -139,7 +139,27 @@ static int c05_s5n(toks_t *t)
   free(row);
   jpeg_finish_compress(&cc);
   jpeg_destroy_compress(&cc);
-  printf("R %lu %llu\n", jn, c05_fnv(jp, jn, 14695981039346656037ULL));
+  printf("R %lu %llu", jn, c05_fnv(jp, jn, 14695981039346656037ULL));
+  /* ... and the decompressor on that stream (accurate IDCT only: the fast ones are allowed to differ) at scales where the components
+     get IDCTs of different sizes, with and without fancy upsampling: the SIMD upsamplers and colour converters with every row-group height */
+  if (!dct) {
+    static const int sc[6][2] = { { 1, 1 }, { 1, 2 }, { 1, 4 }, { 1, 8 }, { 3, 8 }, { 2, 1 } }; int k;
+    for (k = 0; k < 12; k++) {
+      struct jpeg_decompress_struct d; my_err_t de; unsigned long long hh = 14695981039346656037ULL; unsigned char * volatile drow = NULL;
+      d.err = my_err_init(&de);
+      jpeg_create_decompress(&d);
+      if (setjmp(de.jb)) { printf(" e%d", de.code); jpeg_destroy_decompress(&d); free(drow); continue; }
+      jpeg_mem_src(&d, jp, jn);
+      jpeg_read_header(&d, TRUE);
+      d.scale_num = sc[k % 6][0]; d.scale_denom = sc[k % 6][1]; d.do_fancy_upsampling = k < 6; d.dct_method = JDCT_ISLOW; d.out_color_space = JCS_RGB;
+      jpeg_start_decompress(&d);
+      drow = (unsigned char *)malloc((size_t)d.output_width * 3 + 16);
+      while (d.output_scanline < d.output_height) { JSAMPROW rp = drow; jpeg_read_scanlines(&d, &rp, 1); hh = c05_fnv(drow, (size_t)d.output_width * 3, hh); }
+      jpeg_finish_decompress(&d); jpeg_destroy_decompress(&d); free(drow);
+      printf(" %llx", hh);
+    }
+  }
+  printf("\n");
   free(jp);
   return 1;
 }
